@@ -59,6 +59,16 @@ Theorem C17_conn_cut_of_success : forall st o id body st' x s' k,
 Proof. exact conn_cut_of_ok. Qed.
 Print Assumptions C17_conn_cut_of_success.
 
+(* list-offsets v1: every well-formed response (with or without an error code), every cut *)
+Theorem C17_conn_cut_listoffsets : forall st off w k,
+  well_formed AListOffsets 1 w -> fits (enc (resp_ty AListOffsets 1) w) -> closed st = false ->
+  (k < length (frame (wrap32 (corr st + 1)) (enc (resp_ty AListOffsets 1) w)))%nat ->
+  exists e st2 s2,
+    conn_do st (mkOp AListOffsets 1 off) (firstn k (frame (wrap32 (corr st + 1)) (enc (resp_ty AListOffsets 1) w)))
+      = (st2, RErr e, s2) /\ transport e = true /\ closed st2 = true.
+Proof. exact conn_cut_listoffsets. Qed.
+Print Assumptions C17_conn_cut_listoffsets.
+
 (* the decoder of a well-formed response returns what was encoded and consumes exactly it *)
 Theorem C17_conn_decode_exact : forall t w, wt t w -> forall sz rest,
   Z.of_nat (length (enc t w)) <= sz ->
